@@ -43,7 +43,7 @@ class C02(Check):
     level_note = ("Trusted: Lean kernel, axioms propext/Classical.choice/Quot.sound, the hand-written model Model/Framing.lean and the harness (scripted socket, slice recorder). "
                   "Decoders are abstracted (their own correctness is C01). Python-level atomicity/GIL not involved (single-threaded).")
     rule = ("case = (side, 1..30 valid messages of the 22 types from the library's own classes, cut positions); corpus = every 1-cut of two fixed streams, "
-            "2-cuts near header boundaries, 1-byte dribble, cuts at 2047/2048/2049; non-trivial = at least one cut falls strictly inside a message")
+            "2-cuts near header boundaries, 1-byte dribble, cuts at 2047/2048/2049, bursts of 65..700 messages in one read; non-trivial = at least one cut falls strictly inside a message")
 
     def setup(self):
         poxenv.boot()
@@ -87,12 +87,19 @@ class C02(Check):
             big = self._stream(rng, 12, small=False)
             for c in (2047, 2048, 2049, 4096):
                 cases.append({"side": side, "msgs": big, "cuts": [c]})
+            # many complete messages inside ONE read (a burst): 70, 130, 300 and 700 short messages without any cut,
+            # and the same bursts followed by a straggler
+            tiny = [self.of.ofp_echo_request(xid=i, body=bytes([i & 0xff] * (i % 3))).pack().hex() for i in range(700)]
+            for n in (65, 70, 130, 300, 700):
+                cases.append({"side": side, "msgs": tiny[:n], "cuts": []})
+                L = sum(len(m) // 2 for m in tiny[:n])
+                cases.append({"side": side, "msgs": tiny[:n], "cuts": [L - 3]})
         return cases
 
     def generate(self, rng, tier):
         n = 150 if tier == "quick" else 3000
         for _ in range(n):
-            msgs = self._stream(rng, rng.choice([1, 2, 3, 5, rng.randint(1, 30)]), small=rng.random() < 0.7)
+            msgs = self._stream(rng, rng.choice([1, 2, 3, 5, rng.randint(1, 30), rng.randint(60, 200)]), small=rng.random() < 0.7)
             L = sum(len(m) // 2 for m in msgs)
             k = rng.choice([1, 2, 3, rng.randint(0, 12), rng.randint(0, 40)])
             cuts = sorted(rng.randint(1, max(1, L - 1)) for _ in range(k))
